@@ -1,7 +1,7 @@
 (* Concrete projects, witness histories and computed facts for C08 / C14 / C17. *)
 From Coq Require Import String Ascii List Arith Lia Bool.
 Require Import TT.Model.Str TT.Model.C08Fingerprint TT.Model.C08Run.
-Require Import TT.Proofs.C08RunProofs TT.Proofs.C08FpProofs.
+Require Import TT.Proofs.C08RunProofs TT.Proofs.C08FpProofs TT.Proofs.SortInvSpike.
 Import ListNotations.
 Local Open Scope string_scope.
 
@@ -35,24 +35,30 @@ Definition refutes (cls : list nat) (p : project) (c : config) (ops : list cop) 
   kf_C08 w1 sg = cls /\ fst (run_c false w1 false None (fst sg)) = UpToDate /\
   all_current w1 (snd (run_c false w1 false None (fst sg))) = false.
 
+(* the same shape of history, now detected: no class, the run regenerates and everything is current *)
+Definition detects (p : project) (c : config) (ops : list cop) : Prop :=
+  let sg := final p c ops in
+  kf_C08 w1 sg = [] /\ fst (run_c false w1 false None (fst sg)) = Success /\
+  all_current w1 (snd (run_c false w1 false None (fst sg))) = true.
+
 Notation RunOp := (Run project config sched fname).
 Notation SetSrcOp := (SetSrc project config sched fname).
 Notation SetCfgOp := (SetCfg project config sched fname).
 Notation DeleteOp := (Delete project config sched fname).
 
-Lemma refuted_1 : refutes [1] p0 c0 [RunOp w1 false; SetSrcOp (ex_proj (ex_struct (Some (L "uid")) None v1) (ex_cmd None None) (L "ping"))].
+Lemma fixed_1 : detects p0 c0 [RunOp w1 false; SetSrcOp (ex_proj (ex_struct (Some (L "uid")) None v1) (ex_cmd None None) (L "ping"))].
 Proof. vm_compute. repeat split. Qed.
-Lemma refuted_2 : refutes [2] p0 c0 [RunOp w1 false; SetSrcOp (ex_proj (ex_struct None (Some (L "camelCase")) v1) (ex_cmd None None) (L "ping"))].
+Lemma fixed_2 : detects p0 c0 [RunOp w1 false; SetSrcOp (ex_proj (ex_struct None (Some (L "camelCase")) v1) (ex_cmd None None) (L "ping"))].
 Proof. vm_compute. repeat split. Qed.
-Lemma refuted_3 : refutes [3] p0 cz [RunOp w1 false; SetSrcOp (ex_proj (ex_struct None None v2) (ex_cmd None None) (L "ping"))].
+Lemma fixed_3 : detects p0 cz [RunOp w1 false; SetSrcOp (ex_proj (ex_struct None None v2) (ex_cmd None None) (L "ping"))].
 Proof. vm_compute. repeat split. Qed.
-Lemma refuted_4 : refutes [4] p0 c0 [RunOp w1 false; SetSrcOp (ex_proj (ex_struct None None v1) (ex_cmd (Some (L "snake_case")) None) (L "ping"))].
+Lemma fixed_4 : detects p0 c0 [RunOp w1 false; SetSrcOp (ex_proj (ex_struct None None v1) (ex_cmd (Some (L "snake_case")) None) (L "ping"))].
 Proof. vm_compute. repeat split. Qed.
-Lemma refuted_5 : refutes [5] p0 c0 [RunOp w1 false; SetSrcOp (ex_proj (ex_struct None None v1) (ex_cmd None (Some (L "uid"))) (L "ping"))].
+Lemma fixed_5 : detects p0 c0 [RunOp w1 false; SetSrcOp (ex_proj (ex_struct None None v1) (ex_cmd None (Some (L "uid"))) (L "ping"))].
 Proof. vm_compute. repeat split. Qed.
 Lemma refuted_6 : refutes [6] p0 c0 [RunOp w1 false; SetSrcOp (ex_proj (ex_struct None None v1) (ex_cmd None None) (L "pong"))].
 Proof. vm_compute. repeat split. Qed.
-Lemma refuted_7 : refutes [7; 8] p0 c0 [RunOp w1 false; SetCfgOp (ex_cfg "none" true)].
+Lemma fixed_7 : detects p0 c0 [RunOp w1 false; SetCfgOp (ex_cfg "none" true)].
 Proof. vm_compute. repeat split. Qed.
 Lemma refuted_8 : refutes [8] p0 (ex_cfg "none" true)
   [RunOp w1 false; SetSrcOp (ex_proj (ex_struct None None v1) (ex_cmd_at "11" None None) (L "ping"))].
@@ -116,22 +122,22 @@ Definition cmaps : config :=
 Definition wm01 : sched := {| w_files := [0]; w_maps := [0; 1] |}.
 Definition wm10 : sched := {| w_files := [0]; w_maps := [1; 0] |}.
 
-(* two files, two discovery orders: the second non-forced run regenerates *)
-Lemma c14_refuted_files :
-  valid_sched w01 p2 c0 = true /\ valid_sched w10 p2 c0 = true /\ kf_C14_order w01 w10 p2 c0 = true /\
+(* two files, two discovery orders; two type mappings: the second non-forced run answers up to date
+   (former witnesses of C14-1 and C14-2) *)
+Lemma c14_fixed_files :
+  valid_sched w01 p2 c0 = true /\ valid_sched w10 p2 c0 = true /\
   let st1 := snd (run_c false w01 false None (init_state p2 c0)) in
-  fst (run_c false w10 false None st1) = Success.
+  run_c false w10 false None st1 = (UpToDate, st1) /\ fst (run_c false w01 false None (init_state p2 c0)) = Success.
 Proof. vm_compute. repeat split. Qed.
-(* two type mappings, two iteration orders of the map: the same *)
-Lemma c14_refuted_maps :
-  valid_sched wm01 p0 cmaps = true /\ valid_sched wm10 p0 cmaps = true /\ kf_C14_order wm01 wm10 p0 cmaps = true /\
+Lemma c14_fixed_maps :
+  valid_sched wm01 p0 cmaps = true /\ valid_sched wm10 p0 cmaps = true /\
   let st1 := snd (run_c false wm01 false None (init_state p0 cmaps)) in
-  fst (run_c false wm10 false None st1) = Success.
+  fst (run_c false wm10 false None st1) = UpToDate.
 Proof. vm_compute. repeat split. Qed.
-Lemma c14_ex_same_order :
-  kf_C14_order w01 w01 p2 c0 = false /\ fst (run_c false w01 false None (init_state p2 c0)) = Success /\
-  has_commands p2 = true.
-Proof. vm_compute. repeat split. Qed.
+Lemma c14_ex_keys :
+  NoDup (map cmd_key (a_cmds (analyse w01 p2))) /\ NoDup (map s_name (a_structs (analyse w01 p2))) /\ has_commands p2 = true.
+Proof. split; [|split; [constructor|reflexivity]].
+  repeat (constructor; [cbn; intuition discriminate|]). constructor. Qed.
 
 (* ---- C17 witness for the premises ---- *)
 Lemma c17_ex :
@@ -139,33 +145,6 @@ Lemma c17_ex :
   fst (run_c false w1 false (Some 4) (init_state p0 c0)) = Success /\
   length (files w1 p0 c0) = 4.
 Proof. vm_compute. repeat split. Qed.
-
-(* ---- a project with one source file and at most one type mapping has a single valid schedule ---- *)
-Lemma perm_seq_1 w : is_perm_of_seq w 1 = true -> w = [0].
-Proof. unfold is_perm_of_seq. destruct w as [|x [|y r]]; cbn; try discriminate.
-  destruct x; cbn; [reflexivity|discriminate]. Qed.
-Lemma perm_seq_0 w : is_perm_of_seq w 0 = true -> w = [].
-Proof. unfold is_perm_of_seq. destruct w; cbn; [reflexivity|discriminate]. Qed.
-
-Lemma single_file_fp_order_free p c wa wb :
-  length p = 1 -> (match g_maps c with None => True | Some l => length l <= 1 end) ->
-  valid_sched wa p c = true -> valid_sched wb p c = true ->
-  w_files wa = w_files wb /\ maps_in_order wa c = maps_in_order wb c.
-Proof. intros Hp Hm Ha Hb. unfold valid_sched in *. rewrite Hp in *.
-  apply andb_prop in Ha. apply andb_prop in Hb. destruct Ha as [Ha1 Ha2], Hb as [Hb1 Hb2].
-  apply perm_seq_1 in Ha1. apply perm_seq_1 in Hb1. split; [congruence|].
-  unfold maps_in_order. destruct (g_maps c) as [l|]; [|reflexivity].
-  destruct l as [|x [|y l]]; cbn [length] in *.
-  - apply perm_seq_0 in Ha2. apply perm_seq_0 in Hb2. rewrite Ha2, Hb2. reflexivity.
-  - apply perm_seq_1 in Ha2. apply perm_seq_1 in Hb2. rewrite Ha2, Hb2. reflexivity.
-  - lia. Qed.
-
-Lemma single_file_outside_class p c wa wb :
-  length p = 1 -> (match g_maps c with None => True | Some l => length l <= 1 end) ->
-  valid_sched wa p c = true -> valid_sched wb p c = true -> kf_C14_order wa wb p c = false.
-Proof. intros Hp Hm Ha Hb. destruct (single_file_fp_order_free p c wa wb Hp Hm Ha Hb) as [Hf Hmaps].
-  unfold kf_C14_order. replace (fp wb p c) with (fp wa p c); [rewrite tree_eqb_refl; reflexivity|].
-  unfold fp, analyse, fp_cfg. rewrite Hf, Hmaps. reflexivity. Qed.
 
 (* ---- C14: the same project reached through another spelling of the project path ---- *)
 Definition mk_file_at (dir : string) : sfile := mk_file (dir ++ "/a.rs") "cmd_a".
